@@ -88,6 +88,10 @@ def gen_cases(tier, rng):
     n_exh = len(cases)
     # random long paths with UTF-8 names and up to 70 components
     names = ["a", "bb", "é", "日本", "😀x", "..a", ".h", "a..", "...", "x.y"]
+    # component lengths around the widths a compact implementation might use (u8 / u16)
+    for ln in (254, 255, 256, 257, 300, 65535, 65536):
+        for pat in ("%s/../x", "a/%s/../../b", "%s/./../y/", "/%s/..", "%s/z/../.."):
+            cases.append((pat % ("n" * ln)).encode())
     nrand = 5000 if tier == "quick" else 50000
     for _ in range(nrand):
         k = rng.choice([1, 2, 3, 5, 8, 13, 30, 59, 60, 61, 62, 70])
